@@ -811,6 +811,36 @@ class _Builder:
         nb["term"] = {"k": "goto", "target": entry, "line": t.get("line"), "exp": False, "file": file, "closure": cb.path}
         return True
 
+    _ATOMIC_WRITES = {"store", "swap", "fetch_add", "fetch_sub", "fetch_update", "compare_exchange", "compare_exchange_weak", "fetch_and", "fetch_or",
+                      "fetch_xor", "fetch_max", "fetch_min", "fetch_nand"}
+
+    def writes_atomic(self, tb, _seen=None):
+        """does this crate-local body (transitively through resolved crate-local calls) perform an atomic write / RMW?"""
+        memo = self.f.__dict__.setdefault("_writes_atomic", {})
+        if tb.path in memo:
+            return memo[tb.path]
+        _seen = _seen or set()
+        if tb.path in _seen:
+            return False
+        _seen.add(tb.path)
+        res = False
+        for bb, t in tb.calls():
+            c = t["callee"]
+            if not isinstance(c, dict) or "path" not in c:
+                continue
+            if c.get("name") in self._ATOMIC_WRITES and "atomic::Atomic" in ((c.get("self_ty") or "") + c.get("path", "")):
+                res = True
+                break
+            if c.get("crate") == "specs":
+                for x in self.f.targets(c):
+                    if x.kind != "Closure" and self.writes_atomic(x, _seen):
+                        res = True
+                        break
+            if res:
+                break
+        memo[tb.path] = res
+        return res
+
     def inline_target(self, c, depth, stack, higher_order=False):
         if depth >= MAX_DEPTH or "path" not in c or c.get("crate") != "specs":
             return None
@@ -828,8 +858,9 @@ class _Builder:
             return None     # API functions and trait methods are analysed on their own
         if tb.argc == 1 and tb.ltype.get(0) == "bool" and tb.ltype.get(1, "").startswith("&"):
             return None     # `fn(&self) -> bool` state queries (emission switches, liveness flags) are what guards are recognised by
-        if any("sync::atomic::Atomic" in tb.ltype.get(i, "") for i in range(1, tb.argc + 1)) and not higher_order:
-            return None     # helpers that are handed an atomic are the RMW primitives C10 / C01 are written over (a helper that is also
+        if any("sync::atomic::Atomic" in tb.ltype.get(i, "") for i in range(1, tb.argc + 1)) and not higher_order and self.writes_atomic(tb):
+            return None     # helpers that are handed an atomic AND modify it (directly or through further crate-local helpers) are the RMW
+                            # primitives C10 / C01 are written over; plain forwarders (`get_mut`, `load`) are looked through (a helper that is also
                             # handed a closure - a CAS loop parameterised by its step - only means something once that closure is substituted)
         if tb.self_ty in ROLE_TYPES and (not stack or self.f.body(stack[0]) is None or self.f.body(stack[0]).self_ty != tb.self_ty):
             return None
